@@ -454,7 +454,7 @@ KNOWN_STATE = {
 }
 
 
-def relevant_sites(repo, root_funcs, cg=None):
+def relevant_sites(repo, root_funcs, cg=None, module_scope=()):
     """persistent-state sites written or read inside the call closure of `root_funcs` (Func objects), or wrapping one of them"""
     from .callgraph import CallGraph
     cg = cg or CallGraph(repo)
@@ -468,7 +468,7 @@ def relevant_sites(repo, root_funcs, cg=None):
         def inside(q, mod):
             qs = names.get(mod, ())
             return q in qs or q.split(".<locals>.")[0] in qs
-        hit = inside(s.writer, s.module) or any(inside(q, m) for m in names for q in s.shared_by) or any(inside(q, s.module) for q in s.readers)
+        hit = s.module in module_scope or inside(s.writer, s.module) or any(inside(q, m) for m in names for q in s.shared_by) or any(inside(q, s.module) for q in s.readers)
         if not hit:
             # writer may live in another module than the state (CONF mutated from misc.py)
             hit = any(s.writer in qs or s.writer.split(".<locals>.")[0] in qs for qs in names.values())
@@ -478,7 +478,9 @@ def relevant_sites(repo, root_funcs, cg=None):
 
 
 def roots_of(ctx, cg):
-    out = []
+    """(Func objects of the analysed functions the call graph knows, relpaths of modules holding analysed functions it does not know
+    -- methods of nested classes, nested functions: for those the whole module is taken as the scope)"""
+    out, loose = [], set()
     for fq in sorted(ctx.functions_analysed):
         rel, _, q = fq.partition(":")
         try:
@@ -487,7 +489,9 @@ def roots_of(ctx, cg):
             f = None
         if f is not None:
             out.append(f)
-    return out
+        else:
+            loose.add(rel)
+    return out, loose
 
 
 def check_sites(ctx, roots=None):
@@ -496,11 +500,12 @@ def check_sites(ctx, roots=None):
     from .model import AnalysisError
     from .callgraph import CallGraph
     cg = CallGraph(ctx.repo)
+    loose = set()
     if roots is None:
-        roots = roots_of(ctx, cg)
-    if not roots:
+        roots, loose = roots_of(ctx, cg)
+    if not roots and not loose:
         raise AnalysisError("history-independence pass: the rule recorded no analysed function (ctx.analysed) to take the call closure of")
-    sites, closure = relevant_sites(ctx.repo, roots, cg)
+    sites, closure = relevant_sites(ctx.repo, roots, cg, loose)
     ctx.extra["history_scope_functions"] = len(closure)
     ctx.extra["persistent_state_sites"] = ["%s %s::%s written by %s" % (s.kind, s.module, s.state, s.writer) for s in sites]
     undecided = []
